@@ -1,5 +1,7 @@
 """C06 -- RTMP ingest reaches TS, HLS and RTSP consumers with the same frames
-(spec/RemuxOut.tla, MC_RemuxOut.tla, Trace_RemuxOut.tla; driver remuxout)."""
+(spec/RemuxOut.tla, MC_RemuxOut.tla, Trace_RemuxOut.tla; driver remuxout).
+Also decides the RTSP clause of C02 (a subscriber of the Group that sends DESCRIBE and SETUP / PLAY at any two instants is
+described with the sequence header in force, starts at a key frame, is not held back without video) with the same acceptor."""
 import os, re, json
 import concurrent.futures as cf
 import engine as E
@@ -17,16 +19,18 @@ RAW_SIZES = [2, 3, 160, 320, 1200, 1201, 1275]
 T0_POOL = [0, 1000, 16777215 - 40, 0x7fffffff - 90000, 47721858, 0xffffffff]   # the last one is lowered so that the stream does not wrap
 
 
-def write_cfg(combo, mode, max_pub, kinds, dts, max_ver=3, gop=1, inv="AllOk EndComplete"):
+def write_cfg(combo, mode, max_pub, kinds, dts, max_ver=3, gop=1, inv="AllOk EndComplete RAllOk REndComplete", probe=16,
+              tjoin=True, rjoin=True, rmut="none", tag=""):
     v, a = COMBOS[combo]
     lines = ["SPECIFICATION Spec", "CONSTANTS", '  VCodec = "%s"' % v, '  ACodec = "%s"' % a, "  MaxPub = %d" % max_pub,
              "  MaxVer = %d" % max_ver, "  VKinds <- %s" % (kinds if v != "none" else "NoKinds"), "  DtPool <- %s" % dts,
-             "  AscPool = {1, 2, 3}", "  ProbeMax = 16", "  GopNum = %d" % gop, "INVARIANTS " + inv]
+             "  AscPool = {1, 2, 3}", "  ProbeMax = %d" % probe, "  GopNum = %d" % gop,
+             "  TJoin = %s" % ("TRUE" if tjoin else "FALSE"), "  RJoin = %s" % ("TRUE" if rjoin else "FALSE"), '  RMut = "%s"' % rmut, "INVARIANTS " + inv]
     if mode in ("bfs", "wit"):
         lines.append("VIEW View")
     else:
         lines.append("ACTION_CONSTRAINT EmitA")
-    name = "MC_RemuxOut_gen_%s_%s.cfg" % (combo, mode)
+    name = "MC_RemuxOut_gen_%s_%s%s.cfg" % (combo, mode, tag)
     with open(os.path.join(E.SPEC, name), "w") as f:
         f.write("\n".join(lines) + "\n")
     return name
@@ -52,6 +56,9 @@ def concretise(ctx, combo, acts, sc_id, big_budget):
         if x["name"] == "Join":
             steps.append({"name": "Join", "c": x["c"]})
             continue
+        if x["name"] in ("DescR", "PlayR"):      # the second RTSP subscriber: DESCRIBE and SETUP / PLAY where TLC put them
+            steps.append({"name": x["name"]})
+            continue
         if x["name"] != "Pub":
             continue
         m = x["m"]
@@ -64,7 +71,8 @@ def concretise(ctx, combo, acts, sc_id, big_budget):
     nframes = sum(1 for s in msgs if s["m"]["k"] in ("v", "a"))
     # padding: plain frames of the tracks present, a key frame first so that a waiting consumer can start
     pad = 0
-    if nframes < 17 and (v == "none" or a == "none" or rng.random() < 0.3):
+    # (one single-track stream in five stays short: it ends while lal is still probing it)
+    if nframes < 17 and (rng.random() < 0.8 if (v == "none" or a == "none") else rng.random() < 0.3):
         pad = 18 - nframes
     have_vsh = any(s["m"]["k"] == "vsh" for s in msgs)
     have_ash = any(s["m"]["k"] == "ash" for s in msgs)
@@ -80,8 +88,14 @@ def concretise(ctx, combo, acts, sc_id, big_budget):
         st = {"name": "Pub", "m": mm, "dt": 23}
         steps.append(st)
         msgs.append(st)
+    if not any(s["name"] == "DescR" for s in steps):
+        # the behaviour has no second RTSP subscriber (or was cut before it came): DESCRIBE at a random point
+        steps.insert(rng.randrange(1, len(steps) + 1), {"name": "DescR"})
+    if not any(s["name"] == "PlayR" for s in steps):
+        k = [i for i, s in enumerate(steps) if s["name"] == "DescR"][0]
+        steps.insert(rng.randrange(k + 1, len(steps) + 1), {"name": "PlayR"})
     steps.append({"name": "End"})
-    # the RTSP subscriber of the Group joins at a random point (before the first message: DESCRIBE waits for the SDP)
+    # the first RTSP subscriber of the Group joins at a random point (before the first message: DESCRIBE waits for the SDP)
     steps.insert(rng.randrange(1, len(steps)), {"name": "JoinRtsp"})
     # sizes
     for s in msgs:
@@ -97,7 +111,13 @@ def concretise(ctx, combo, acts, sc_id, big_budget):
                     else:
                         big_budget[0] -= 1
                 u["n"] = n
-    # timestamps
+    # timestamps.  One scenario in five jumps forward so that its later frames straddle a boundary of the top bits of the PES clock
+    if rng.random() < 0.2 and len(msgs) > 6:
+        k = rng.randrange(3, len(msgs) - 2)
+        before = sum(s["dt"] for s in msgs[:k])
+        edge = rng.choice(CLOCK_EDGES)
+        if edge - rng.randrange(0, 120) > before:
+            msgs[k]["dt"] += edge - rng.randrange(0, 120) - before
     span = sum(s["dt"] for s in msgs)
     t0 = rng.choice(T0_POOL)
     if t0 + span > 0xffffffff:
@@ -195,6 +215,158 @@ def directed(ctx, sc0):
     return out
 
 
+def directed_rtsp(ctx, sc0):
+    """C02 for RTSP subscribers of the Group: DESCRIBE and PLAY around a key frame, in-band parameter sets of non-key
+    pictures after PLAY, a sequence-header change before DESCRIBE, joins during lal's analyse stage, audio-only streams."""
+    out = []
+
+    def hdr(k, ver):
+        return {"k": k, "ver": ver, "key": False, "cts": 0, "n": 0, "nals": []}
+
+    def vm(key, nals):
+        return {"k": "v", "ver": 0, "key": key, "cts": 0, "n": 0, "nals": [dict(u) for u in nals]}
+
+    def au(n):
+        return {"k": "a", "ver": 0, "key": False, "cts": 0, "n": n, "nals": []}
+    K, P = [{"t": "idr", "v": 0, "n": 300}], [{"t": "slice", "v": 0, "n": 200}]
+    for ci, combo in enumerate(("avc_aac", "hevc_opus", "avc_g711u", "avc_none", "none_aac", "none_opus")):
+        v, a = COMBOS[combo]
+        ps = (["vps"] if v == "hevc" else []) + ["sps", "pps"]
+        for shape in range(4):
+            seq = []          # messages and "DescR" / "PlayR" / "JoinRtsp" markers
+            if v != "none":
+                seq.append(hdr("vsh", 1))
+            if a == "aac":
+                seq.append(hdr("ash", 1 + ci % 3))
+            if v == "none":
+                # audio only: DESCRIBE while lal still analyses the stream (shape 0, 1) or afterwards; never held back
+                for j in range(22):
+                    if j == (3, 9, 17, 19)[shape]:
+                        seq.append("DescR")
+                    if j == (5, 17, 18, 20)[shape]:
+                        seq.append("PlayR")
+                    if j == 2 + shape:
+                        seq.append("JoinRtsp")
+                    seq.append(au(100 + j))
+            else:
+                def gop(n, withaudio=True):
+                    for j in range(n):
+                        seq.append(vm(j == 0, K if j == 0 else P))
+                        if a != "none" and withaudio:
+                            seq.append(au(120 + len(seq)))
+                lead = 18 if a == "none" else 3
+                if shape == 0:      # a key frame passes between DESCRIBE and PLAY
+                    gop(lead); seq.append("DescR"); gop(3); seq.append("PlayR"); gop(3); gop(2)
+                elif shape == 1:    # after PLAY: parameter sets travelling with / between non-key pictures, then a key frame
+                    gop(lead); seq.append("DescR"); seq.append("PlayR")
+                    seq.append(vm(False, [{"t": "pps", "v": 1, "n": 0}] + P))
+                    seq.append(vm(False, P))
+                    seq.append(vm(False, [{"t": t, "v": 1, "n": 0} for t in ps]))
+                    seq.append(vm(False, P))
+                    if a != "none":
+                        seq.append(au(99))
+                    gop(3); gop(2)
+                elif shape == 2:    # the sequence header changes, then DESCRIBE: the description has to carry the new one
+                    gop(lead); seq.append(hdr("vsh", 2)); gop(2); seq.append("JoinRtsp"); seq.append(hdr("vsh", 3)); seq.append("DescR")
+                    gop(2); seq.append("PlayR"); gop(3); gop(2)
+                else:               # DESCRIBE while lal still analyses the stream (second track late or absent), PLAY at once
+                    seq2 = seq; seq = []
+                    gop(4, withaudio=False); seq.append("DescR"); seq.append("PlayR"); seq.append("JoinRtsp")
+                    gop(4 if a != "none" else 9); gop(3); gop(2)
+                    if a == "aac":   # the audio sequence header only comes now
+                        seq2 = [m for m in seq2 if not (isinstance(m, dict) and m["k"] == "ash")]
+                        k = [i for i, m in enumerate(seq) if isinstance(m, dict) and m["k"] == "a"][0]
+                        seq.insert(k, hdr("ash", 2))
+                    seq = seq2 + seq
+            steps = [{"name": "Join", "c": "t1"}]
+            t = 7000 + 1000 * shape
+            for m in seq:
+                if isinstance(m, str):
+                    steps.append({"name": m})
+                    continue
+                if m["k"] in ("v", "a"):
+                    t += 20
+                steps.append({"name": "Pub", "m": m, "ts": t})
+            if not any(s["name"] == "JoinRtsp" for s in steps):
+                steps.insert(2, {"name": "JoinRtsp"})
+            steps.append({"name": "End"})
+            out.append({"sc": sc0 + len(out), "combo": combo, "steps": steps,
+                        "cfg": {"v": v, "a": a, "gop": shape % 3, "hls": True, "fragMs": 100, "rtsp": True, "enh": v == "hevc" and shape % 2 == 1}})
+    return out
+
+
+def directed_short(ctx, sc0):
+    """Streams that end while lal is still probing them (fewer than 16 messages, one track seen): what was published has to
+    come out when the input leaves."""
+    out = []
+    shapes = [("none_aac", "a", 10), ("none_opus", "a", 7), ("avc_none", "v", 12), ("hevc_none", "v", 9),
+              ("avc_aac", "v", 9), ("avc_aac", "a", 11), ("hevc_opus", "v", 14)]     # A/V whose second track never shows up
+    for i, (combo, only, n) in enumerate(shapes):
+        v, a = COMBOS[combo]
+        steps = [{"name": "Join", "c": "t1"}]
+        t = 3000 + 500 * i
+        if only == "v":
+            steps.append({"name": "Pub", "m": {"k": "vsh", "ver": 1, "key": False, "cts": 0, "n": 0, "nals": []}, "ts": t})
+        elif a == "aac":
+            steps.append({"name": "Pub", "m": {"k": "ash", "ver": 1 + i % 3, "key": False, "cts": 0, "n": 0, "nals": []}, "ts": t})
+        for j in range(n):
+            t += 40
+            if only == "v":
+                key = j % 5 == (1 if i % 2 else 0)
+                m = {"k": "v", "ver": 0, "key": key, "cts": 0, "n": 0, "nals": [{"t": "idr" if key else "slice", "v": 0, "n": 150 + j}]}
+            else:
+                m = {"k": "a", "ver": 0, "key": False, "cts": 0, "n": 90 + j, "nals": []}
+            steps.append({"name": "Pub", "m": m, "ts": t})
+            if j == 3:
+                steps.append({"name": "Join", "c": "t2"})
+            if j == 1 + i % 4:
+                steps.append({"name": "JoinRtsp"})
+        steps.append({"name": "End"})
+        out.append({"sc": sc0 + len(out), "combo": combo, "steps": steps,
+                    "cfg": {"v": v, "a": a, "gop": i % 3, "hls": True, "fragMs": 100, "rtsp": True, "enh": False}})
+    return out
+
+
+# PES clock: pts = 90 * (ts - first ts of the track) + 63000 ticks; the three top bits of the 33-bit value change at 2^30, 2^31,
+# 2^32 (and the value wraps at 2^33): stream times in ms at which that happens
+CLOCK_EDGES = [((1 << b) - 63000) // 90 for b in (30, 31, 32, 33)]
+
+
+def directed_clock(ctx, sc0):
+    """Frames of both tracks, with and without composition offsets, on both sides of every boundary of the top bits of the
+    33-bit PES clock, in one stream: an error that depends on those bits cannot hide in the per-consumer constant of TsTime."""
+    out = []
+    for ci, combo in enumerate(("avc_aac", "hevc_opus", "avc_none", "none_aac")):
+        v, a = COMBOS[combo]
+        for nedge in ((3, 4) if ci < 2 else (3,)):
+            t0 = (5000, 123456, 4000, 77)[ci]
+            steps = [{"name": "Join", "c": "t1"}]
+            if v != "none":
+                steps.append({"name": "Pub", "m": {"k": "vsh", "ver": 1, "key": False, "cts": 0, "n": 0, "nals": []}, "ts": t0})
+            if a == "aac":
+                steps.append({"name": "Pub", "m": {"k": "ash", "ver": 1, "key": False, "cts": 0, "n": 0, "nals": []}, "ts": t0})
+
+            def burst(rel, n, first):
+                for j in range(n):
+                    t = t0 + rel + 40 * j
+                    if v != "none":
+                        key = j % 4 == 0
+                        steps.append({"name": "Pub", "ts": t, "m": {"k": "v", "ver": 0, "key": key, "cts": 0 if key else (80, 0, 40)[j % 3], "n": 0,
+                                                                   "nals": [{"t": "idr" if key else "slice", "v": 0, "n": 120 + j}]}})
+                    if a != "none":
+                        steps.append({"name": "Pub", "ts": t + 11, "m": {"k": "a", "ver": 0, "key": False, "cts": 0, "n": 64 + j, "nals": []}})
+                        steps.append({"name": "Pub", "ts": t + 32, "m": {"k": "a", "ver": 0, "key": False, "cts": 0, "n": 80 + j, "nals": []}})
+            burst(0, 9 if (v == "none" or a == "none") else 4, True)
+            steps.append({"name": "Join", "c": "t2"})
+            steps.append({"name": "JoinRtsp"})
+            for e in CLOCK_EDGES[:nedge]:
+                burst(e - 170, 9, False)      # 170 ms before to 190 ms after the edge: dts, pts (cts 40 / 80) and audio cross at different frames
+            steps.append({"name": "End"})
+            out.append({"sc": sc0 + len(out), "combo": combo, "steps": steps,
+                        "cfg": {"v": v, "a": a, "gop": ci % 3, "hls": True, "fragMs": 100, "rtsp": True, "enh": False}})
+    return out
+
+
 def why_lines(ctx):
     """@WHY@<line>@<set of failing parts> printed by the trace spec next to every @REJ@."""
     out = {}
@@ -210,41 +382,82 @@ def why_lines(ctx):
     return out
 
 
-def run(ctx):
+def run(ctx, c02=False):
+    """c02=True: the part that decides C02's clauses for HTTP-TS and RTSP consumers (late joiners: PAT/PMT or the session
+    description first, the first video frame a key frame, no consumer of a stream without video held back) - the design
+    runs with late consumers, two mutants, fewer simulated behaviours and the directed join scenarios."""
     E.build_harness(ctx)
+    # design level: (combo, MaxPub, kinds, dts, late consumers, ProbeMax).  "t": a second HTTP-TS consumer joins anywhere;
+    # "r": an RTSP subscriber of the Group sends DESCRIBE and PLAY at any two instants (C02 for RTSP).  Single-track streams
+    # only leave lal's probe / analyse stage after ProbeMax messages: the model parameter is lowered for them.
     if ctx.quick:
-        bfs = [("avc_aac", 5, "AvcCore", "Dt2"), ("hevc_opus", 5, "HevcCore", "Dt2")]
-        nsim, depth, maxpub = 26, 14, 9
+        bfs = [("avc_aac", 5, "AvcCore", "Dt2", "t", 16), ("hevc_opus", 5, "HevcCore", "Dt2", "t", 16),
+               ("avc_aac", 5, "AvcCore", "Dt2", "r", 16), ("avc_aac", 4, "AvcAll", "Dt1", "r", 16), ("none_aac", 7, "NoKinds", "Dt2", "r", 3)]
+        nsim, depth, maxpub = 26, 16, 9
     else:
-        bfs = [("avc_aac", 6, "AvcCore", "Dt2"), ("hevc_aac", 6, "HevcCore", "Dt2"), ("avc_opus", 5, "AvcAll", "Dt2"),
-               ("hevc_opus", 5, "HevcAll", "Dt2"), ("none_aac", 8, "NoKinds", "Dt5"), ("avc_none", 5, "AvcAll", "Dt2")]
-        nsim, depth, maxpub = 1900, 16, 10
+        bfs = [("avc_aac", 6, "AvcCore", "Dt2", "t", 16), ("hevc_aac", 6, "HevcCore", "Dt2", "t", 16), ("avc_opus", 5, "AvcAll", "Dt2", "t", 16),
+               ("hevc_opus", 5, "HevcAll", "Dt2", "t", 16), ("none_aac", 8, "NoKinds", "Dt5", "t", 16), ("avc_none", 5, "AvcAll", "Dt2", "t", 16),
+               ("avc_aac", 6, "AvcCore", "Dt2", "r", 16), ("avc_aac", 5, "AvcAll", "Dt1", "r", 16), ("hevc_opus", 5, "HevcAll", "Dt1", "r", 16),
+               ("avc_g711a", 5, "AvcCore", "Dt2", "r", 16), ("none_aac", 8, "NoKinds", "Dt2", "r", 3), ("none_opus", 7, "NoKinds", "Dt2", "r", 3),
+               ("avc_none", 6, "AvcCore", "Dt1", "r", 3)]
+        nsim, depth, maxpub = 1900, 18, 10
+    # model-level mutants of the RTSP reference that the design check must catch (TLC has to report a violated invariant)
+    muts = [("stage", "avc_aac", 5, "AvcCore", "Dt2", 16), ("stale", "avc_aac", 5, "AvcCore", "Dt2", 16),
+            ("nodrain", "none_aac", 4, "NoKinds", "Dt2", 16)]
+    if not ctx.quick:
+        muts += [("anyps", "avc_aac", 4, "AvcAll", "Dt1", 16), ("hold", "none_aac", 7, "NoKinds", "Dt2", 3)]
+    if c02:
+        bfs = [b for b in bfs if b[0] in ("avc_aac", "none_aac")][:4]
+        muts = [m for m in muts if m[0] in ("stage", "stale", "hold")]
+        nsim = max(6, nsim // 4)
 
     def do_bfs(x):
-        combo, mp, kinds, dts = x
-        cfg = write_cfg(combo, "bfs", mp, kinds, dts, max_ver=2)
-        return combo, mp, E.tlc(ctx, "MC_RemuxOut", cfg, timeout=3000, deadlock=False, workers=max(2, E.NCPU // 2))
+        combo, mp, kinds, dts, late, probe = x
+        cfg = write_cfg(combo, "bfs", mp, kinds, dts, max_ver=2, probe=probe, tjoin="t" in late, rjoin="r" in late,
+                        tag="" if late == "t" else "_%s%d%s" % (late, mp, kinds[-4:].lower()))
+        return x, E.tlc(ctx, "MC_RemuxOut", cfg, timeout=3000, deadlock=False, workers=max(2, E.NCPU // 3))
+
+    def do_mut(x):
+        mut, combo, mp, kinds, dts, probe = x
+        cfg = write_cfg(combo, "mut", mp, kinds, dts, max_ver=2, probe=probe, tjoin=False, rjoin=True, rmut=mut, tag="_" + mut)
+        return x, E.tlc(ctx, "MC_RemuxOut", cfg, timeout=900, deadlock=False, workers=2)
 
     def do_sim(combo):
         cfg = write_cfg(combo, "sim", maxpub, kinds_of(combo, True), "Dt5", max_ver=3, gop=(len(combo) % 2))
         return combo, E.tlc(ctx, "MC_RemuxOut", cfg, name="sim-" + combo, workers=1, timeout=900, deadlock=False,
                             simulate="num=%d" % nsim, depth=depth)
 
-    with cf.ThreadPoolExecutor(max_workers=2) as ex:
-        for combo, mp, res in ex.map(do_bfs, bfs):
-            E.require_design_ok(ctx, res, "MC_RemuxOut %s" % combo)
-            ctx.log("design %s maxpub=%d: %d distinct states, reference remuxer satisfies the acceptor (AllOk, EndComplete)" %
-                    (combo, mp, res["distinct"]))
+    def do_wit(x):
+        inv, late = x
+        cfg = write_cfg("avc_aac", "wit", 5, "AvcMin", "Dt2", max_ver=2, inv=inv, tjoin=late == "t", rjoin=late == "r",
+                        tag="" if late == "t" else "_r")
+        return x, E.tlc(ctx, "MC_RemuxOut", cfg, timeout=600, deadlock=False, workers=2)
+
     # non-vacuity of the design check: a behaviour in which both HTTP-TS consumers are handed video and audio and
-    # the late joiner starts mid-stream must exist (TLC has to report the negated witness as violated)
-    wcfg = write_cfg("avc_aac", "wit", 5, "AvcCore", "Dt2", max_ver=2, inv="WitnessV")
-    wres = E.tlc(ctx, "MC_RemuxOut", wcfg, timeout=600, deadlock=False)
-    if wres.get("inv") != "WitnessV":
-        raise E.Infra("design check is vacuous: no behaviour reaches the witness state")
+    # the late joiner starts mid-stream must exist (TLC has to report the negated witness as violated); the same for an
+    # RTSP subscriber that waited for a key frame and was then handed video and audio
+    jobs = [(do_bfs, x) for x in bfs] + [(do_mut, x) for x in muts] + [(do_wit, ("WitnessV", "t")), (do_wit, ("WitnessR", "r"))]
+    # the simulations that emit the scenarios run next to the design-level checks
+    sim_ex = cf.ThreadPoolExecutor(max_workers=max(2, E.NCPU // 2))
+    sim_futs = [sim_ex.submit(do_sim, combo) for combo in sorted(COMBOS)]
+    with cf.ThreadPoolExecutor(max_workers=3) as ex:
+        for (fn, x), (_, res) in zip(jobs, ex.map(lambda j: j[0](j[1]), jobs)):
+            if fn is do_bfs:
+                combo, mp, kinds, dts, late, probe = x
+                E.require_design_ok(ctx, res, "MC_RemuxOut %s" % combo)
+                ctx.log("design %s maxpub=%d late=%s: %d distinct states, reference model satisfies the acceptor (AllOk, EndComplete, "
+                        "RAllOk, REndComplete)" % (combo, mp, late, res["distinct"]))
+            elif fn is do_mut:
+                if res.get("inv") not in ("RAllOk", "REndComplete", "EndComplete"):
+                    raise E.Infra("design check is insensitive: the reference with mutant '%s' passes" % x[0])
+            elif res.get("inv") != x[0]:
+                raise E.Infra("design check is vacuous: no behaviour reaches the witness state %s" % x[0])
+    ctx.log("design: %d mutants of the reference (%s) violate RAllOk / REndComplete / EndComplete; witnesses exist" %
+            (len(muts), ", ".join(m[0] for m in muts)))
     scen = []
     big_budget = [12 if ctx.quick else 400]
-    with cf.ThreadPoolExecutor(max_workers=max(2, E.NCPU // 2)) as ex:
-        sims = list(ex.map(do_sim, sorted(COMBOS)))
+    sims = [f.result() for f in sim_futs]
+    sim_ex.shutdown()
     for combo, res in sims:
         if res["errors"]:
             raise E.Infra("simulation found a model error in %s: %s" % (combo, res["errors"][:2]))
@@ -258,6 +471,10 @@ def run(ctx):
             scen.append(concretise(ctx, combo, b, len(scen), big_budget))
         ctx.log("simulate %s: %d behaviours, %d distinct" % (combo, len(bs), len(seen)))
     scen += directed(ctx, len(scen))
+    scen += directed_rtsp(ctx, len(scen))
+    if not c02:
+        scen += directed_short(ctx, len(scen))
+        scen += directed_clock(ctx, len(scen))
     scen = [dedupe_short(s) for s in scen]
     sp, tp = ctx.path("scen.ndjson"), ctx.path("trace.ndjson")
     E.write_ndjson(sp, scen)
@@ -275,7 +492,8 @@ def run(ctx):
     ctx.cov["distinct_nontrivial"] = len(scen)
     ctx.cov["rule"] = ("scenario = TLC-simulated behaviour of MC_RemuxOut (message kinds x timestamp increments x join point of a "
                        "second HTTP-TS consumer, per codec combination; de-duplicated) with NAL / audio sizes drawn from the "
-                       "boundary pools and a 32-bit start timestamp, plus one directed scenario per NAL size and codec; "
+                       "boundary pools and a 32-bit start timestamp, DESCRIBE / PLAY of a second RTSP subscriber where TLC put "
+                       "them, plus directed scenarios (NAL sizes, RTSP join shapes, streams shorter than lal's probe stage); "
                        "evaluations = PES frames / RTP frames decided by the acceptor")
     ctx.sample({k: scen[0][k] for k in ("sc", "cfg", "combo")})
     ctx.sample(scen[0]["steps"][:6])
@@ -306,8 +524,12 @@ def run(ctx):
     ctx.assumptions += [
         "independent TS/PES/PSI, Annex-B, ADTS, RTP (RFC 6184/7798/3640) and SDP readers in harness/proj are the 'standards-conforming demuxer'",
         "HTTP-TS consumers are real httpts.SubSession objects on in-memory connections (synchronous writes); HLS segments are read "
-        "back from disk in playlist order; the RTSP side is remux.Rtmp2RtspRemuxer fed with the same messages (no rtsp.SubSession, "
-        "so Group.feedRtpPacket key-frame gating and the UDP / interleaved transports are not exercised)",
+        "back from disk in playlist order; the RTSP side is remux.Rtmp2RtspRemuxer fed with the same messages (ra) and two real "
+        "rtsp.ServerCommandSession / SubSession objects of the Group over interleaved TCP on in-memory connections (rg: DESCRIBE, "
+        "SETUP, PLAY in one go; rh: DESCRIBE and SETUP / PLAY at two instants); UDP transport is not exercised",
+        "C02 for RTSP: the description must carry the VIDEO sequence header in force when DESCRIBE is answered; an AAC "
+        "sequence-header change after lal's analyse stage is not demanded in the description (the running RTP clock cannot follow "
+        "another sampling rate); tracks that first appear after the analyse stage are outside the enumerated streams",
         "publisher is well-formed: sequence headers precede the frames of their track, timestamps do not decrease, complete "
         "parameter-set groups in band, composition offsets >= 0, AAC object types 1-4, audio frames of 2+ bytes for Opus / G.711",
     ]
